@@ -22,7 +22,7 @@ Definition spec_binop (op : bop) (a b : Z) : sres :=
   | OAnd => SInt (Z.land a b) | OOr => SInt (Z.lor a b) | OXor => SInt (Z.lxor a b)
   | OLt => SBool (a <? b) | OLe => SBool (a <=? b) | OEq => SBool (a =? b)
   | ONe => SBool (negb (a =? b)) | OGt => SBool (a >? b) | OGe => SBool (a >=? b)
-  | OPow => if b <? 0 then SFloat else SInt (a ^ b)
+  | OPow => if b <? 0 then (if a =? 0 then SErr "ZeroDivisionError" else SFloat) else SInt (a ^ b)
   end.
 
 Definition spec_unop (op : uop) (a : Z) : sres :=
